@@ -403,6 +403,8 @@ Mutated mutate(const Config &cfg, const Line &valid) {
       }
       m.line = l;
       Use ux = freshUse(x), uy = freshUse(y);
+      // the positional argument takes bare words only: the common value comes from it, so that it never looks like a key
+      if (want == HC_DIFFER && cfg.args[x].spec != "-" && cfg.args[y].spec == "-") std::swap(ux, uy);
       if (want == HC_DIFFER) uy.elems = ux.elems;
       else uy.elems.push_back(ux.elems[0]);
       insertAt(ux); insertAt(uy);
@@ -954,6 +956,7 @@ rc::Gen<Case> genUsage() {
     const std::vector<std::string> vocab = {"the", "value", "of", "this", "argument", "is", "used", "to", "select", "input", "files", "and", "more", "x", "configuration"};
     std::set<std::string> longKeys;
     for (auto &a : cfg.args) longKeys.insert(a.longKey);
+    bool oneCharLong = false;
     for (size_t i = 0; i < cfg.args.size(); ++i) {
       ArgDef &a = cfg.args[i];
       if (a.shortKey == 'h') { a.shortKey = 'H'; for (auto &ch : a.spec) if (ch == 'h' && (&ch == &a.spec[0] || *(&ch - 1) == '-' || *(&ch - 1) == ',') && (&ch == &a.spec.back() || *(&ch + 1) == ',')) ch = 'H'; }   // -h is the help argument here
@@ -962,9 +965,20 @@ rc::Gen<Case> genUsage() {
       if (!a.mandatory && pick(30)) { a.deprecated = true; if (pick(50)) a.replacedBy = "--new-name"; }
       // only plain scalar destinations (and tuples) can print a default value; for the others the library default (off) is kept
       { int k = slotKinds()[a.slot]; a.printDefault = (k == K_INT || k == K_LONG || k == K_UINT || k == K_DOUBLE || k == K_STRING || k == K_TUPLE_ISI) ? *range<int>(0, 2) : 0; }
+      if (!a.longKey.empty() && !a.shortKey && a.constraints.empty() && pick(20)) {
+        // a long key of one character, which only the explicit form "--x" can define
+        std::string free;
+        for (char ch = 'i'; ch <= 'z'; ++ch) { bool taken = false; for (auto &o : cfg.args) if (o.shortKey == ch || o.longKey == std::string(1, ch)) taken = true; if (!taken) free += ch; }
+        bool referenced = false;
+        for (auto &o : cfg.args) for (auto &ct : o.constraints) if (ct.second == static_cast<int>(i)) referenced = true;
+        for (auto &hc : cfg.hcs) for (int x : hc.args) if (x == static_cast<int>(i)) referenced = true;
+        if (!free.empty() && !referenced) { a.longKey = std::string(1, free[*range<size_t>(0, free.size() - 1)]); a.spec = "--" + a.longKey; oneCharLong = true; }
+      } else
       if (!a.longKey.empty() && pick(25)) {
         std::string k = "very-long-argument-name-number-" + std::to_string(i) + "-";
-        size_t want = *range<size_t>(36, 46);
+        // printed key ("--key" or "-x,--key"): half of them right around the same-line threshold of 40 characters
+        size_t printed = pick(50) ? *range<size_t>(38, 42) : *range<size_t>(38, 51);
+        size_t want = printed - (a.shortKey ? 5 : 2);
         while (k.size() < want) k += 'z';
         a.longKey = k;
         a.spec = a.shortKey ? std::string(1, a.shortKey) + "," + k : k;
@@ -1020,6 +1034,37 @@ size_t countOccurrences(const std::string &hay, const std::string &needle) {
   return n;
 }
 
+// C17 through the usage printer (--opt layout=1): the argument descriptions are text blocks. Every indented line of the argument
+// sections that holds two or more description words must fit into the usage line length (60..239, default 80); the key of an
+// entry line is not a description word. Nothing else is judged in this mode (the listing itself is C18's business).
+std::string usageLayout(const Config &cfg, const std::string &out) {
+  auto &st = stats();
+  const size_t width = usageLineLength(cfg.flags) ? static_cast<size_t>(usageLineLength(cfg.flags)) : 80;
+  size_t p = out.find("arguments:");
+  if (p == std::string::npos) return "";
+  size_t maxKey = 0;
+  bool wrapped = false;
+  while (p < out.size()) {
+    size_t e = out.find('\n', p);
+    if (e == std::string::npos) e = out.size();
+    const std::string line = out.substr(p, e - p);
+    p = e + 1;
+    if (line.size() < 4 || line.compare(0, 3, "   ") != 0) continue;
+    const bool keyLine = line[3] == '-';
+    size_t words = 0;
+    { std::istringstream is(line); std::string w; while (is >> w) ++words; }
+    if (keyLine) { size_t ke = line.find(' ', 3); maxKey = std::max(maxKey, (ke == std::string::npos ? line.size() : ke) - 3); if (words) --words; }
+    else wrapped = true;
+    if (line.size() > width && words >= 2)
+      return "usage line holds " + std::to_string(words) + " description words and is " + std::to_string(line.size()) + " long, line length " + std::to_string(width) + ": \"" + line + "\"";
+  }
+  st.cls("layout.judged");
+  if (wrapped) st.cls("layout.wrapped_description");
+  if (maxKey >= 38 && maxKey <= 42) st.cls("layout.longest_key_" + std::to_string(maxKey));
+  if (wrapped) st.markNontrivial();
+  return "";
+}
+
 std::string runUsage(const Case &c) {
   auto &st = stats();
   if (c.discarded) { st.cls("discarded." + c.discardWhy); return ""; }
@@ -1031,6 +1076,11 @@ std::string runUsage(const Case &c) {
   if (r.threw) return where + "help evaluation threw: " + r.what;
   const std::string &out = r.out;
   auto has = [&](const std::string &w) { return std::find(v.in.argv.begin(), v.in.argv.end(), w) != v.in.argv.end(); };
+  if (opt("layout", 0)) {
+    if (v.note.compare(0, 8, "help-arg") == 0) return "";
+    std::string l = usageLayout(cfg, out);
+    return l.empty() ? "" : where + l;
+  }
   if (v.note.compare(0, 8, "help-arg") == 0) {
     std::string key = v.note.substr(9);
     int target = -1;
@@ -1105,6 +1155,7 @@ std::string runUsage(const Case &c) {
     e = expectNote("[deprecated]", a.deprecated && a.replacedBy.empty()); if (!e.empty()) return e;
     e = expectNote("[replaced by", a.deprecated && !a.replacedBy.empty()); if (!e.empty()) return e;
     if (a.longKey.size() >= 36) st.cls("usage.long_key_own_line");
+    if (a.longKey.size() == 1) st.cls("usage.one_character_long_key");
   }
   st.cls(subUsage ? "usage.sub_group" : "usage.full");
   if (printHidden) st.cls("usage.print_hidden");
